@@ -120,7 +120,26 @@ fn rejected_feature(s: &Schema, msg: &str) -> String {
     "-".into()
 }
 
+/// What kind of definition the first reference error is about, as the dynamic API models it.
+fn subject(s: &Schema, e: &SError) -> &'static str {
+    let sub_root = s.subscription.as_deref().filter(|n| s.is_object(n) && *n != s.query && Some(*n) != s.mutation.as_deref());
+    if !e.at.is_empty() && Some(e.at.as_str()) == sub_root {
+        return "subscription-root";
+    }
+    match s.types.get(&e.at).map(|t| &t.kind) {
+        None => "schema",
+        Some(Kind::Scalar) => "scalar",
+        Some(Kind::Object { .. }) => "object",
+        Some(Kind::Interface { .. }) => "interface",
+        Some(Kind::Union { .. }) => "union",
+        Some(Kind::Enum { .. }) => "enum",
+        Some(Kind::Input { .. }) => "input",
+    }
+}
+
 struct Tally {
+    /// class → "rule/subject" → cases, for every disagreement (the evidence lists them all)
+    disagreements: BTreeMap<String, BTreeMap<String, u64>>,
     by_rule: BTreeMap<String, [u64; 2]>,
     by_operator: BTreeMap<String, [u64; 4]>,
     built_ok: u64,
@@ -152,7 +171,7 @@ impl<'a> Judge<'a> {
         Judge {
             cx,
             seen: Mutex::new(HashSet::new()),
-            tally: Mutex::new(Tally { by_rule: BTreeMap::new(), by_operator: BTreeMap::new(), built_ok: 0, exercised_clean: 0, operations_run: 0, operations_clean: 0, unrepresentable: 0, duplicates: 0, agreed_valid: 0, agreed_invalid: 0 }),
+            tally: Mutex::new(Tally { disagreements: BTreeMap::new(), by_rule: BTreeMap::new(), by_operator: BTreeMap::new(), built_ok: 0, exercised_clean: 0, operations_run: 0, operations_clean: 0, unrepresentable: 0, duplicates: 0, agreed_valid: 0, agreed_invalid: 0 }),
         }
     }
 
@@ -215,13 +234,18 @@ impl<'a> Judge<'a> {
         }
         match (&obs.built, rule0) {
             (Built::Ok, Some(r)) => {
+                *self.tally.lock().unwrap().disagreements.entry(format!("accepts-invalid/{r}")).or_default().entry(format!("{r}/{}", subject(irs, &obs.reference[0]))).or_insert(0) += 1;
                 let all: Vec<String> = obs.reference.iter().map(|e| format!("{}: {}", e.rule, e.msg)).collect();
                 cx.violation(
-                    Violation::new(format!("accepts-invalid/{r}"), format!("finish() built a type system the specification rejects ({})\n{sdl}", all.join("; ")), self.case(irs, &sdl, o)).key("rule", r).key("operator", o.operator.clone()),
+                    Violation::new(format!("accepts-invalid/{r}"), format!("finish() built a type system the specification rejects ({})\n{sdl}", all.join("; ")), self.case(irs, &sdl, o))
+                        .key("rule", r)
+                        .key("subject", subject(irs, &obs.reference[0]))
+                        .key("operator", o.operator.clone()),
                 );
             }
             (Built::Rejected(msg), None) => {
                 let feature = rejected_feature(irs, msg);
+                *self.tally.lock().unwrap().disagreements.entry(format!("rejects-valid/{}", normalise(msg))).or_default().entry(feature.clone()).or_insert(0) += 1;
                 cx.violation(
                     Violation::new(format!("rejects-valid/{}", normalise(msg)), format!("finish() rejected a valid type system: {msg}\n{sdl}"), self.case(irs, &sdl, o)).key("rule", feature).key("operator", o.operator.clone()),
                 );
@@ -297,18 +321,23 @@ fn run(cx: &Cx) {
     let judge = Judge::new(cx);
 
     // ---------------- (i) small scope
-    let scfg = if quick { small::SmallCfg { max_defs: 4, exh_defs: 2, budget: [2, 1, 0] } } else { small::SmallCfg { max_defs: 5, exh_defs: 3, budget: [2, 2, 1] } };
-    let sbounds: [u32; 4] = [scfg.budget[0], scfg.budget[1], scfg.budget[2], 0];
-    let st1 = explore(
-        &ExploreCfg::bounds(sbounds),
-        &|ch: &mut Chooser| {
-            let s = small::generate(ch, &scfg);
-            judge.judge(&s, &Origin { part: "small-scope", operator: "enum".into(), sites: vec![], choices: ch.choices() });
-        },
-        &|_, _| {},
-    );
-    if let Some(d) = &st1.diverged {
-        cx.machinery_error(d.clone());
+    let exh_defs = if quick { 2 } else { 3 };
+    let scfg = if quick { small::SmallCfg { max_defs: 4, types_exhaustive: false, budget: [2, 2, 0] } } else { small::SmallCfg { max_defs: 5, types_exhaustive: false, budget: [3, 2, 1] } };
+    let acfg = small::SmallCfg { max_defs: exh_defs, types_exhaustive: true, budget: [0, 0, 0] };
+    let mut small_stats = Vec::new();
+    for (pass, cfg) in [("all-field-types", acfg), ("decorations", scfg)] {
+        let st = explore(
+            &ExploreCfg::bounds([cfg.budget[0], cfg.budget[1], cfg.budget[2], 0]),
+            &|ch: &mut Chooser| {
+                let s = small::generate(ch, &cfg);
+                judge.judge(&s, &Origin { part: "small-scope", operator: "enum".into(), sites: vec![], choices: ch.choices() });
+            },
+            &|_, _| {},
+        );
+        if let Some(d) = &st.diverged {
+            cx.machinery_error(d.clone());
+        }
+        small_stats.push((pass, st.executions, st.capped));
     }
 
     // ---------------- (ii) exemplars × edit operators
@@ -356,17 +385,17 @@ fn run(cx: &Cx) {
         cx.machinery_error("no built schema ever answered an operation without errors");
     }
     cx.rule(&format!(
-        "case = one type system (distinct by canonical SDL), registered through the dynamic API and finished. (i) small scope: Query (always the query root) plus ≤ {} further definitions from {{A,B: object; I,J: interface; U: union; E: enum; In: input}}; exhaustive structure (which names, implements among defined interfaces, union members among defined objects); decorations of the plain system (fields f: Int, g: Int everywhere): field type from {{Int, Int!, [Int], A, A!, I, U, In, In!, [In!]}} over defined names, one argument from {{x:Int, x:Int!, y:Int, y:Int!, x:In, x:A}}, one/no field, no enum value, interface implementing itself, non-object union member, @oneOf — ≤ {} decorations with ≤ 3 definitions, ≤ {} with 4, ≤ {} with 5; all field-type combinations exhaustively with ≤ {} definitions. (ii) 4 valid exemplars × every sequence of ≤ {} edit(s) from {} operators at every applicable site. Non-trivial = type systems on which finish() and the reference validator agree (both verdicts must occur).",
+        "case = one type system (distinct by canonical SDL), registered through the dynamic API and finished. (i) small scope: Query (always the query root) plus ≤ {} further definitions from {{A,B: object; I,J: interface; U: union; E: enum; In: input}}; exhaustive structure (which names, implements among defined interfaces, union members among defined objects); decorations of the plain system (fields f: Int, g: Int everywhere): field type from {{Int, Int!, [Int], A, A!, I, U, In, In!, [In!]}} over defined names, one argument from {{x:Int, x:Int!, y:Int, y:Int!, x:In, x:A}}, one/no field, no enum value, interface implementing itself, non-object union member, @oneOf — ≤ {} decorations with ≤ 3 definitions, ≤ {} with 4, ≤ {} with 5; plus all field-type combinations (no other decoration) with ≤ {} definitions. (ii) 4 valid exemplars × every sequence of ≤ {} edit(s) from {} operators at every applicable site. Non-trivial = type systems on which finish() and the reference validator agree (both verdicts must occur).",
         scfg.max_defs - 1,
         scfg.budget[0],
         scfg.budget[1],
         if scfg.max_defs >= 5 { scfg.budget[2] } else { 0 },
-        scfg.exh_defs,
+        exh_defs,
         max_edits,
         ops_seen.lock().unwrap().len()
     ));
-    cx.exhaustive(!st1.capped && !st2.capped);
-    cx.extra("small_scope", json!({"choice_sequences": st1.executions, "max_definitions": scfg.max_defs, "types_exhaustive_up_to_definitions": scfg.exh_defs, "decoration_budget": {"up_to_3_definitions": scfg.budget[0], "4_definitions": scfg.budget[1], "5_definitions": scfg.budget[2]}}));
+    cx.exhaustive(!small_stats.iter().any(|x| x.2) && !st2.capped);
+    cx.extra("small_scope", json!({"choice_sequences": {"all_field_types_pass": small_stats[0].1, "decorations_pass": small_stats[1].1}, "max_definitions": scfg.max_defs, "types_exhaustive_up_to_definitions": exh_defs, "decoration_budget": {"up_to_3_definitions": scfg.budget[0], "4_definitions": scfg.budget[1], "5_definitions": scfg.budget[2]}}));
     cx.extra("exemplar_edits", json!({"choice_sequences": st2.executions, "max_edits": max_edits, "single_edits_per_operator": *ops_seen.lock().unwrap()}));
     cx.extra("duplicate_type_systems_skipped", json!(t.duplicates));
     cx.extra("unrepresentable_skipped", json!(t.unrepresentable));
@@ -378,6 +407,7 @@ fn run(cx: &Cx) {
         "by_operator",
         J::Object(t.by_operator.iter().filter(|(k, _)| !k.contains('+')).map(|(k, v)| (k.clone(), json!({"agreed_valid": v[0], "agreed_invalid": v[1], "accepts_invalid": v[2], "rejects_valid": v[3]}))).collect()),
     );
+    cx.extra("disagreements", json!(t.disagreements));
     cx.extra("rules_not_judged_unrepresentable", json!(UNREPRESENTABLE_RULES));
     cx.assume("uniqueness rules (type, field, argument, enum value, union member, implements) are not judged: register()/argument()/item()/possible_type() replace silently and field()/implement() assert before any schema exists, so the dynamic API cannot hold a duplicate");
     cx.assume("the subscription root object is registered as dynamic::Subscription (the API's own model); type systems that use that object as a field type or let it implement interfaces are skipped as unrepresentable");
